@@ -408,10 +408,12 @@ def tag_of(v) -> str:
         if isinstance(v, str):
             return "enum:str"
         return "enum:plain"
+    name = type_name(t)
+    if name in _KNOWN_TAGS:
+        return name
     if isinstance(v, types.GeneratorType) or (hasattr(v, "__next__") and not hasattr(v, "__len__")):
         return "generator"
-    name = type_name(t)
-    return name if name in _KNOWN_TAGS else "object"
+    return "object"
 
 
 _KNOWN_TAGS = set(tag_representatives())
